@@ -1037,6 +1037,16 @@ func (m *Machine) Overlay(n *Node) *nodeOverlay {
 	return ov
 }
 
+// AnyOverlay reports whether any symbolic object was written on this path.
+func (m *Machine) AnyOverlay() bool {
+	for k := range m.Scratch {
+		if _, ok := k.(overlayKey); ok {
+			return true
+		}
+	}
+	return false
+}
+
 func (m *Machine) overlayFor(n *Node) *nodeOverlay {
 	if ov := m.Overlay(n); ov != nil {
 		return ov
